@@ -2,7 +2,7 @@
    Only statements; proofs are in GS.ResponderProofs.  The link tracker enters through C19's
    refinement theorem (GS.LinkTrackerProofs); traversal plans are those of GS.Ltree (C07). *)
 From Coq Require Import List NArith Bool.
-From GS Require Import Base Ltree LinkTracker LinkTrackerProofs Responder ResponderProofs.
+From GS Require Import Base Ltree LinkTracker LinkTrackerProofs Responder ResponderProofs ResponderMonitor.
 Import ListNotations.
 Open Scope N_scope.
 
@@ -108,6 +108,21 @@ Theorem C24_responder_half :
      (d1 = true -> exists k2, nth (length (pre1 ++ LRecord r c h1 :: mid)) (louts ops) ONone = OSend false k2)).
 Proof. exact (conj c24_never_skipped c24_responder). Qed.
 Print Assumptions C24_responder_half.
+
+(* The executable statement of the property that is evaluated on the implementation's messages on every run
+   (monitor_C03: metadata = the plan's link loads over the store; blocks by C19's specification state; index;
+   final status by the rule) and the wire monitor of C24's responder half (no block at an index <= skip, no block
+   twice within a request) accept EVERY scheduled execution of the model: every store, any number of requests
+   with distinct ids, every plan and extension combination for each of them, and every schedule — i.e. every
+   interleaving of the requests' link loads with one another, requests starting at any point — in which a
+   request is started at most once and only known requests are started.  [sim] is the model's execution of a
+   schedule (SStart q = prepareQuery, SStep q = q's next link load and, after the last, its closing transaction). *)
+Theorem C03_monitor : forall (St : cid -> sres) (reqs : list rreq) (sched : list sact),
+  NoDup (map rq_id reqs) -> NoDup (starts sched) -> incl (starts sched) (map rq_id reqs) ->
+  let tl := sim plt_new (map (rst_init true St) reqs) sched in
+  monitor_C03 St reqs tl = true /\ forallb (mon24_req tl) reqs = true.
+Proof. exact c03_monitor. Qed.
+Print Assumptions C03_monitor.
 
 (* ---- non-vacuity ---- *)
 (* Two requests of one peer over the same DAG 0 -> {1, 2, 1}: block 2 is missing.  Request 1 skips its
